@@ -99,31 +99,30 @@ def run(ctx):
             if v:
                 v["input"] = {"fn": fn, "message_length": n, "key": args[0].hex(), "padding": args[2] if fn == "generate_cbc_mac" else args[3]}
                 res["violations"].append(v)
-    # a key held in ONE bytearray that the caller overwrites between calls (no stale key material may be reused)
-    for ks in (8, 16, 24):
+    # a key held in ONE bytearray that the caller overwrites in place between consecutive calls of the same function
+    # (no other key in between): no stale key material or cipher object may be reused
+    def mutated_key_sequence(name, make_args, frozen_of, ks):
         buf = bytearray(rng.randbytes(ks))
         for step in range(4):
-            msg = rng.randbytes(rng.randrange(1, 30))
-            for fn, args in (("generate_cbc_mac", (buf, msg, 1, None, False)), ("generate_retail_mac", (buf, rng.randbytes(8), msg, 2, None)),
-                             ("generate_retail_mac", (rng.randbytes(16), buf, msg, 1, None))):
-                out = core.impl_call(fn, args)
-                frozen = tuple(bytes(a) if isinstance(a, bytearray) else a for a in args)
-                v = check_impl(fn, frozen, out)
-                res["evaluations"] += 1
-                if v:
-                    v["input"] = {"fn": fn, "args": [core.show(a) for a in frozen], "note": "key passed as a bytearray overwritten in place between calls (step %d)" % step}
-                    res["violations"].append(v)
-            buf[:] = rng.randbytes(ks)
-    if ks == 16 or True:
-        buf = bytearray(rng.randbytes(16))
-        for step in range(3):
-            out = core.impl_call("generate_cbc_mac", (buf, b"abcdefgh", 1, None, True))
-            v = check_impl("generate_cbc_mac", (bytes(buf), b"abcdefgh", 1, None, True), out)
+            args = make_args(buf)
+            out = core.impl_call(name, args)
+            frozen = tuple(bytes(a) if isinstance(a, bytearray) else a for a in args)
+            v = check_impl(name, frozen, out)
             res["evaluations"] += 1
             if v:
-                v["input"] = {"fn": "generate_cbc_mac(AES)", "key": bytes(buf).hex(), "note": "bytearray key overwritten in place (step %d)" % step}
+                v["input"] = {"fn": name, "args": [core.show(a) for a in frozen],
+                              "note": "key passed as ONE bytearray overwritten in place between calls (call %d of the sequence)" % (step + 1)}
                 res["violations"].append(v)
-            buf[:] = rng.randbytes(16)
+            buf[:] = rng.randbytes(ks)
+
+    msg = rng.randbytes(19)
+    k2 = rng.randbytes(8)
+    for ks in (8, 16, 24):
+        mutated_key_sequence("generate_cbc_mac", lambda b: (b, msg, 1, None, False), None, ks)
+        mutated_key_sequence("generate_retail_mac", lambda b: (b, k2, msg, 2, None), None, ks)
+        mutated_key_sequence("generate_retail_mac", lambda b: (k2, b, msg, 1, None), None, ks)
+    for ks in (16, 24, 32):
+        mutated_key_sequence("generate_cbc_mac", lambda b: (b, msg, 2, None, True), None, ks)
     # oracle-free identity: single-block retail MAC = E_k1(D_k2(E_k1(block)))
     for _ in range(20):
         k1, k2, blk = rng.randbytes(8), rng.randbytes(8), rng.randbytes(8)
